@@ -360,8 +360,8 @@ STUB_ELF2 = [("crate::elf::read_elf", "crate::harness::c11::ghost_read_elf_bytew
 FS = ("--max-field-sensitivity-array-size", "1024")
 
 
-def elf_load(prop, name, variant, env, args, memsz, stack, omit, tier="quick"):
-    add(prop, name, f"c11::load_skeleton_args($S, {variant}, {'true' if env else 'false'}, Some(c11::{args}), {memsz}, {stack:#x}, {omit})",
+def elf_load(prop, name, variant, env, args, memsz, stack, omit, tier="quick", exit_idx=2):
+    add(prop, name, f"c11::load_skeleton_args($S, {variant}, {'true' if env else 'false'}, Some(c11::{args}), {memsz}, {stack:#x}, {omit}, {exit_idx})",
         stubs=(STUB_ELF2,), unwind=18, timeout=1500, mem_gb=24, cbmc_args=FS, tier=tier, ignore_dealloc=True,
         note="deallocation-precondition failures inside Kani's C library model are not counted (config-dependent CBMC artefact, DESIGN 3c)")
 
@@ -369,23 +369,27 @@ def elf_load(prop, name, variant, env, args, memsz, stack, omit, tier="quick"):
 # C11: the real elf::load on concrete layout skeletons, symbolic segment bytes / GOT values / ___exit value
 elf_load("C11", "c11_load_segments_got_v0", 0, False, "ARGS1", 16, 0x1003, 0)
 elf_load("C11", "c11_load_segments_got_v1", 1, False, "ARGS1", 17, 0x1003, 0)
+elf_load("C11", "c11_load_segments_got_v2_adjacent", 2, False, "ARGS1", 16, 0x1003, 0)
 for nm, uw in (("header", 20), ("program_headers", 20), ("section_headers", 24)):
     add("C11", f"c11_parser_{nm}", f"c11p::{nm}($S)", unwind=uw, timeout=900)
 # C12: entry / GOT pointer / exit address / stack pointer / argument block at enumerated (layout, sizes, argument string) points
-elf_load("C12", "c12_load_env_args0_r13", 0, True, "ARGS0", 17, 0x1003, 0)
+elf_load("C12", "c12_load_env_args0_r13", 0, True, "ARGS0", 17, 0x1003, 0, exit_idx=0)
 elf_load("C12", "c12_load_env_args1_r13", 0, True, "ARGS1", 17, 0x1003, 0)
-elf_load("C12", "c12_load_env_args2_r22", 0, True, "ARGS2", 18, 0x1002, 0)
+elf_load("C12", "c12_load_env_args2_r22", 0, True, "ARGS2", 18, 0x1002, 0, exit_idx=1)
 elf_load("C12", "c12_load_env_args0_v1_note_last", 1, True, "ARGS0", 16, 0x1003, 0)
 elf_load("C12", "c12_load_env_args0_r31", 0, True, "ARGS0", 19, 0x1001, 0, tier="thorough")
 elf_load("C12", "c12_load_env_args0_r11", 0, True, "ARGS0", 17, 0x1001, 0, tier="thorough")
 elf_load("C12", "c12_load_env_args0_r00", 0, True, "ARGS0", 16, 0x1000, 0, tier="thorough")
+elf_load("C12", "c12_load_env_args1_v2_adjacent", 2, True, "ARGS1", 18, 0x1003, 0, tier="thorough", exit_idx=0)
 elf_load("C12", "c12_load_env_args1_v1", 1, True, "ARGS1", 18, 0x1003, 0, tier="thorough")
 elf_load("C12", "c12_load_env_args2_nostack_section", 0, True, "ARGS2", 16, 0x1003, 1, tier="thorough")
 add("C12", "c12_parser_symbols", "c11p::symbols($S)", unwind=12, timeout=900)
 add("PROBE11", "c11_parser_string_entry", "c11p::string_entry($S)", unwind=10, timeout=900, mem_gb=24)
 
+# C09 with SYMBOLIC write addresses (two writes + probe, every address outside DRAM): 23 min measured -> thorough tier only
+add("C09", "c09_sym_write_probe_nodram", "c09::sym_write_probe($S, 0)", timeout=1600, mem_gb=20, tier="thorough",
+    note="two byte writes at symbolic addresses + symbolic probe, DRAM accesses excluded (DRAM array shortened to one byte); 1403 s measured")
 add("PROBE09", "c09_sym_write1_probe_nodram", "c09::sym_write_probe_n($S, 0, 1)", timeout=4800, mem_gb=20)
-add("PROBE09", "c09_sym_write_probe_nodram", "c09::sym_write_probe($S, 0)", timeout=4800, mem_gb=20)
 add("PROBE09", "c09_sym_write_probe_dram4k", "c09::sym_write_probe($S, 4096)", timeout=4800, mem_gb=20)
 add("PROBEV", "probe_vec_str_fs", "c11::probe_vec_str($S)", unwind=18, cbmc_args=FS)
 add("PROBEV", "probe_vec_str_plain", "c11::probe_vec_str($S)", unwind=18)
